@@ -745,8 +745,8 @@ func runServerScenario(skipVerify bool, secretSpec string, cmds []string, w *os.
 // Every scenario runs in a subprocess: a double close of lastActive inside a datagram goroutine is
 // an unrecoverable panic, which must be an observation ("CRASH"), not the death of the harness.
 func evalServerSub(op string, args []string) string {
-	if op == "dups" && len(args) == 1 {
-		args = []string{"dups", args[0], "-"}
+	if (op == "dups" || op == "downs") && len(args) == 1 {
+		args = []string{op, args[0], "-"}
 	} else if op != "scenario" || len(args) != 3 {
 		return "UNKNOWN-OP"
 	}
@@ -777,11 +777,68 @@ func evalServerInproc(args []string) string {
 	if args[0] == "dups" {
 		return runDups(atoi(args[1]), nil)
 	}
+	if args[0] == "downs" {
+		return runDowns(atoi(args[1]))
+	}
 	skip := args[0] == "1"
 	if args[2] == "-" {
 		return "BAD-CASE"
 	}
 	return runServerScenario(skip, args[1], strings.Split(args[2], ","), nil)
+}
+
+// ---- free-running concurrent Shutdown calls: n goroutines call Shutdown at the same moment, on a fresh
+// server (nothing registered yet) or with one Serve call running; every call must return nil.  Unlike the
+// parked scenarios nothing is serialised here, so the calls race for the critical section itself
+// (300 rounds per case; meaningful under -race as well).
+func runDowns(n int) string {
+	if n < 2 || n > 16 {
+		return "BAD-CASE"
+	}
+	for round := 0; round < 300; round++ {
+		srv := &radius.PacketServer{SecretSource: radius.StaticSecretSource([]byte("s")), Handler: radius.HandlerFunc(func(w radius.ResponseWriter, r *radius.Request) {})}
+		var conn *dupConn
+		serveRet := make(chan error, 1)
+		if round%2 == 1 {
+			conn = &dupConn{in: make(chan []byte), closed: make(chan struct{})}
+			go func() { serveRet <- srv.Serve(conn) }()
+			if round%4 == 3 {
+				time.Sleep(50 * time.Microsecond)
+			}
+		}
+		start := make(chan struct{})
+		rets := make(chan error, n)
+		for i := 0; i < n; i++ {
+			go func() {
+				<-start
+				ctx, cancel := context.WithTimeout(context.Background(), 3*time.Second)
+				defer cancel()
+				rets <- srv.Shutdown(ctx)
+			}()
+		}
+		close(start)
+		for i := 0; i < n; i++ {
+			select {
+			case err := <-rets:
+				if err != nil {
+					return fmt.Sprintf("round=%d shutdown=%s", round, errName(err))
+				}
+			case <-time.After(5 * time.Second):
+				return fmt.Sprintf("round=%d shutdown=HANG", round)
+			}
+		}
+		if conn != nil {
+			select {
+			case err := <-serveRet:
+				if err != radius.ErrServerShutdown {
+					return fmt.Sprintf("round=%d serve=%s", round, errName(err))
+				}
+			case <-time.After(5 * time.Second):
+				return fmt.Sprintf("round=%d serve=HANG", round)
+			}
+		}
+	}
+	return "all=nil"
 }
 
 // ---- generators ----
@@ -852,6 +909,9 @@ func accountingRequest(id byte, secret []byte) []byte {
 func genC07(g *Gen, tier string, emit func(op string, args ...string)) {
 	d0 := hx(accessRequest(7))
 	d1 := hx(accessRequest(8, "bob"))
+	for _, n := range []int{2, 2, 3, 4, 8, 16} {
+		emit("downs", itoa(n))
+	}
 	sc := func(cmds []string) {
 		emit("scenario", "0", "0:73", strings.Join(append(cmds, "Z"), ","))
 	}
